@@ -405,6 +405,26 @@ def _sp_post(ctx):
         if (r[0], r[1]) != (e[0], e[1]):
             REC.violation(PROP, mon, "splitAudioOnTier", case, "returned item %d is %r for entry %r" % (k, r, e), sig, mech)
             return
+        # "one file per entry", named the way nameStyle documents: None -> output name plus the interval number, 'append' -> that plus the
+        # label, 'append_no_i' -> name and label, 'label' -> the label alone (the width and base of the number are not documented)
+        import re as _re
+
+        stem = r[2][:-4] if r[2].lower().endswith(".wav") else None
+        num = _re.compile(r"^0*(\d+)$")
+        okname = stem is not None
+        if okname and style == "label":
+            okname = stem == e[2]
+        elif okname and style == "append_no_i":
+            okname = stem == "%s_%s" % (base, e[2])
+        elif okname and style == "append":
+            m_ = stem.startswith(base + "_") and stem.endswith("_" + e[2]) and num.match(stem[len(base) + 1:len(stem) - len(e[2]) - 1])
+            okname = bool(m_) and int(m_.group(1)) in (k, k + 1)
+        elif okname:
+            m_ = stem.startswith(base + "_") and num.match(stem[len(base) + 1:])
+            okname = bool(m_) and int(m_.group(1)) in (k, k + 1)
+        if not okname:
+            REC.violation(PROP, mon, "splitAudioOnTier", case, "entry %d %r (nameStyle %r, recording %r) was written to %r: not the documented name" % (k, e, style, base, r[2]), sig, dict(mech, naming=True))
+            return
         fn = os.path.join(outPath, r[2])
         i, j = W.index_at(e[0], rate), W.index_at(e[1], rate)
         if i is None or j is None:
